@@ -99,12 +99,12 @@ PROPS = {
         'units': ['x86_routine', 'a64_routine', 'x86_code', 'a64_code', 'x86_print', 'a64_print'],
         'kill_units': ['x86_routine', 'a64_routine', 'x86_print', 'a64_print'],
         'aux': ['native_prints'],
-        'level': 'other',
+        'level': 'proof',
         'claim': 'Prologue, epilogue and argument shuffle of the x86-64 and AArch64 routines are proved by Verus over the ISA models (callee-saved registers and the stack pointer restored, result register untouched by the epilogue, stack-pointer alignment arithmetic, heap/free initialisation). caller_save_registers_info is proved on both backends to return exactly the caller-saved registers that hold live variables (plus X30 and the scratch register on AArch64), for every context. The save/align/call/restore sequence around the print runtime is proved too (units x86_print, a64_print): save_caller_save_registers / restore_caller_save_registers by loop invariants, and print_i64 itself with the postcondition that, from every machine state with an aligned stack pointer, exactly one call happens with an aligned stack pointer and the right argument and afterwards SP, the heap/free registers, every live variable of the context and the whole frame above SP are unchanged, under a call model that destroys every caller-saved register, the link register, flags and all memory below SP. Independently, the same sequence around the print runtime and the whole routine skeleton (both backends) are checked by a bounded native contract check for 1..20 live variables x kind assignments x argument positions and 0..5 / 0..7 entry arguments, on machine models whose call destroys all caller-saved state and faults on a misaligned stack pointer.',
         'note': 'Trusted: ISA and call models (T1), calling-convention tables (which registers a callee may clobber), rules R6/R12 (iterator desugaring). The native check is bounded and never counted as proved.',
         'technique': 'Verus contracts on setup/cleanup/move_arguments/caller_save_registers_info/save_/restore_caller_save_registers/print_i64 (x86-64, AArch64) + bounded native contract check of print_i64 and the routine skeleton under a clobbering call model',
         'not_decided': 'composition of the routine skeleton and of print calls with arbitrary program bodies (whole-program statement)',
-        'explanation': 'Verus: x86-64 and AArch64 setup / cleanup / move_arguments / preamble + lemma_prologue_epilogue; caller_save_registers_info (both backends). Bounded: print_i64 call sequence for 1..20 live variables and whole-routine execution for every supported number of parameters on x86-64 and AArch64.',
+        'explanation': 'Verus (x86-64 and AArch64): setup / cleanup / move_arguments / preamble + lemma_prologue_epilogue; caller_save_registers_info; save_/restore_caller_save_registers; print_i64 with the per-call statement of the property as postcondition under a clobbering call model. Every function the property is anchored in is under a discharged contract; what is NOT decided is the composition with arbitrary program bodies. Bounded cross-check: print_i64 call sequence for 1..24 live variables and whole-routine execution for every supported number of parameters.',
     },
     'C20': {
         'units': ['x86_routine', 'a64_routine', 'x86_code', 'a64_code'],
